@@ -21,7 +21,7 @@ def main():
     out = {}
     from concurrent.futures import ThreadPoolExecutor
     def run(i):
-        env = dict(os.environ, VERIF_JOBS="4")
+        env = dict(os.environ, VERIF_JOBS="4", VERIF_EVIDENCE_DIR="/tmp/seedtest_evidence")
         ev = "/tmp/seedtest_evidence"
         r = subprocess.run(["/verif/check", i, "--repo", WT], capture_output=True, text=True, cwd="/verif", env=env)
         lines = [l for l in r.stdout.splitlines() if l.startswith(("VIOLATION", "ANALYSIS-ERROR", "  rule="))]
